@@ -9,4 +9,5 @@ PROPERTY AlignedUnlessFailed
 PROPERTY FitUsesCurrent
 PROPERTY ResetClears
 INVARIANT RowsBelong
+INVARIANT DerivImpliesPlain
 INVARIANT Emit
